@@ -12,7 +12,8 @@
   OBLIGATIONS (audited by `check` with `#print axioms`):
     view_is_innermost, view_fixed_at_open, view_push, view_root, view_disabled, lastOf_eq_lookup,
     exit_restores, frame_block_restores, moved_frame_carries_view, isolation_step, isolation, interleave_polls,
-    erased_storage_identity, erased_roundtrip, program_balanced, program_view_is_innermost, tasks_balanced, no_trace
+    erased_storage_identity, erased_roundtrip, wrappers_transparent, existing_wrappers_transparent,
+    default_open_push_not_transparent, program_balanced, program_view_is_innermost, tasks_balanced, no_trace
 -/
 import EmitModel.Lemmas.Ctxt
 namespace EmitModel.C03
@@ -305,6 +306,29 @@ theorem erased_storage_identity (evs : List (Ev V)) :
 
 theorem erased_roundtrip {α : Type} (b : Bool) (a a' : α) :
     (Erased.new b a).get = a ∧ ((Erased.new b a).set a').get = a' := by simp
+
+/-- **wrappers_transparent.** A wrapper that forwards `open_push` to the inner ctxt opens exactly the frames the
+    inner ctxt opens, for all four kinds — whether it forwards `open_disabled` too (`&C`, `Box`, `Arc`, `Option`,
+    `dyn ErasedCtxt`, the ambient slot) or leaves it to the trait default (`AssertInternal`). `enter`, `exit`,
+    `with_current` and `open_root` have no default, so the whole machine (`step`) is the same. -/
+theorem wrappers_transparent (w : Wrapper) (hw : w.push = .forward) (kind : Kind)
+    (cur : Option (List (String × V))) (ps : List (String × V)) :
+    openVia w kind cur ps = openFrame kind cur ps := by
+  cases kind <;> simp only [openVia, pushVia, hw]
+  · cases w.disabled <;> simp [openFrame]
+  · simp [openFrame]
+
+theorem existing_wrappers_transparent (kind : Kind) (cur : Option (List (String × V))) (ps : List (String × V)) :
+    openVia Wrapper.forwarding kind cur ps = openFrame kind cur ps ∧
+    openVia Wrapper.assertInternal kind cur ps = openFrame kind cur ps :=
+  ⟨wrappers_transparent _ rfl kind cur ps, wrappers_transparent _ rfl kind cur ps⟩
+
+/-- Why the forwarder matters: the trait default `open_push` re-roots `props ++ current`, and over
+    `ThreadLocalCtxt::open_root` (`HashMap::insert`: the last pair wins) the AMBIENT value then overwrites the
+    pushed one. A wrapper without the `open_push` forwarder is not transparent. -/
+theorem default_open_push_not_transparent :
+    openVia (⟨.traitDefault, .forward⟩ : Wrapper) .push (some [("a", 1)]) [("a", 2)] = some [("a", 1)] ∧
+    openFrame .push (some [("a", 1)]) [("a", 2)] = some [("a", 2)] := by decide
 
 /-- **program_balanced.** Every well-scoped program (`compileL … = some`; frames used via guard, `with`, `call`,
     `in_fn` on another thread, `in_future` polled in any scripted interleaving on any threads, panics unwinding
